@@ -136,9 +136,9 @@ def run_tlc(module, cfg, files=None, workers=None, timeout=600, simulate=None, d
         for name, path in (files or {}).items():
             shutil.copy(path, os.path.join(d, name))
         w = str(workers if workers else min(16, os.cpu_count() or 4))
-        cmd = ["java", "-XX:+UseParallelGC", "-Xss" + xss]
-        if heap:
-            cmd.append("-Xmx" + heap)
+        # measured here: SerialGC with a small heap is 3-4x faster (and far lighter on the kernel) than the
+        # tlc wrapper's ParallelGC with a 25%-of-RAM heap for the many short runs the checks make
+        cmd = ["java", "-XX:+UseSerialGC", "-Xmx" + (heap or "3g"), "-Xss" + xss]
         if deque:
             cmd.append("-Dtlc2.tool.queue.IStateQueue=StateDeque")
         cmd += ["-cp", "/opt/veriftools/tla/tla2tools.jar:/opt/veriftools/tla/CommunityModules-deps.jar",
@@ -222,9 +222,13 @@ def known_for(prop):
     return [f for f in load_known().get("findings", []) if prop in f.get("properties", [f.get("property")])]
 
 
+_replay_counter = [0]
+
+
 def write_replay(prop, name, obj):
     os.makedirs(REPLAYS, exist_ok=True)
-    path = os.path.join(REPLAYS, "%s_%s_%d.json" % (prop, name, int(time.time())))
+    _replay_counter[0] += 1
+    path = os.path.join(REPLAYS, "%s_%s_%d_%d_%d.json" % (prop, name, int(time.time()), os.getpid(), _replay_counter[0]))
     with open(path, "w") as fh:
         json.dump(obj, fh, indent=1)
     return path
@@ -246,6 +250,55 @@ def write_evidence(prop, tier, level, coverage, wall, violations=0, assumptions=
     with open(tmp, "w") as fh:
         json.dump(ev, fh, indent=1, sort_keys=True)
     os.replace(tmp, os.path.join(EVIDENCE, prop + ".json"))
+
+
+def replay_vectors(drv, args, vecs, timeout=3600):
+    """Feed TLC vectors to a drv replay command; returns (summary dict, list of mismatch dicts)."""
+    inp = "\n".join(json.dumps(x) for x in vecs) + "\n"
+    p = run([drv] + args, input=inp, timeout=timeout)
+    if p.returncode != 0:
+        raise Broken("replay driver failed (%d): %s\n%s" % (p.returncode, " ".join(args), p.stderr[-3000:]))
+    summary, mism = None, []
+    for line in p.stdout.splitlines():
+        o = json.loads(line)
+        if o.get("summary"):
+            summary = o
+        elif o.get("mismatch"):
+            mism.append(o)
+    if summary is None:
+        raise Broken("replay driver printed no summary")
+    return summary, mism
+
+
+def validate_records(module, cfg, trace_name, lines, data=None, workers=None, timeout=3600, max_fail=5, on_fail=None):
+    """Trace validation for record-style traces (one initial state per record, variable l).
+    on_fail(invariant, index, record_line) is called for each failing record; the record is then removed and TLC
+    re-run so that the rest of the trace is still checked. Returns (states, n_records)."""
+    lines = list(lines)
+    total = len(lines)
+    states = 0
+    fails = 0
+    while lines:
+        d = dict(data or {})
+        d[trace_name] = "\n".join(lines) + "\n"
+        r = run_tlc(module, cfg, data=d, workers=workers, timeout=timeout, want_vecs=False)
+        states += r.distinct
+        if r.ok:
+            break
+        if r.violated:
+            m = re.findall(r"(?m)^/?\\?\s*l = (\d+)", r.trace_text) or re.findall(r"l = (\d+)", r.trace_text)
+            if not m:
+                raise Broken("%s: cannot locate the failing record\n%s" % (module, r.out[-2000:]))
+            idx = int(m[-1]) - 1
+            if on_fail:
+                on_fail(r.violated, idx, lines[idx])
+            del lines[idx]
+            fails += 1
+            if fails >= max_fail:
+                break
+            continue
+        raise Broken("%s/%s: %s\n%s" % (module, cfg, r.error, r.out[-3000:]))
+    return states, total
 
 
 class Verdict:
